@@ -45,7 +45,7 @@ BUILTIN_CLASSES = {1: "BaseException", 2: "Exception", 3: "KeyError", 4: "Keyboa
 VALUES = ["", "x", "héllo\nwor\tld", "\U0001f600 astral", 1.5, -2.25e10, None, True, False, [1, 2, 3], [],
           {}, {"a": [1, {"b": None}]}, "quote\"back\\slash", " sep", [[["deep"]]], 1e-7, "0", "null",
           {"k": "v", "n": 0}, "ctrl\x01\x1f", "long " * 40, [True, None, 1.25], "7", 3.0e100, {"": ""},
-          "\x7f", "tab\t", [{"x": []}], "end"]
+          "\x7f", "tab\t", [{"x": []}], "end", 1.0, 0.0]
 N_VALUES = len(VALUES)
 
 
@@ -1314,7 +1314,7 @@ class Gen(object):
         if rng.random() < self.p_hostile:
             return {"a": rng.randrange(HOSTILE_LO, HOSTILE_HI)}
         if rng.random() < 0.4:
-            return {"i": rng.choice([0, 1, -1, 7, -5, 2 ** 31, 2 ** 53 + 1, -2 ** 63, 2 ** 63 - 1, rng.randrange(-100, 100)])}
+            return {"i": rng.choice([0, 1, 1, 0, -1, 7, -5, 2 ** 31, 2 ** 53 + 1, -2 ** 63, 2 ** 63 - 1, rng.randrange(-100, 100)])}
         return {"a": 20 + rng.randrange(N_VALUES)}
 
     def fields(self, maxn=3, lo=20, hi=30, reserved=()):
@@ -1372,7 +1372,22 @@ class Gen(object):
                 if st[0] == "raise":
                     break
                 if st[0] == "msg" and st[3] is not None and rng.random() < 0.3:
-                    out.append(json.loads(json.dumps(st)))     # the same typed message again: same type object, equal values
+                    dup = json.loads(json.dumps(st))           # the same typed message again: same type object, equal values
+                    if rng.random() < 0.5:
+                        # ... or values that are equal (==, same hash) but are different JSON values: 1 / True, 0 / False
+                        # (atoms 27/28 = True/False, 50/51 = 1.0/0.0)
+                        swap = rng.choice([{'{"i": 1}': {"a": 27}, '{"i": 0}': {"a": 28}, '{"a": 27}': {"i": 1}, '{"a": 28}': {"i": 0}},
+                                           {'{"a": 50}': {"a": 27}, '{"a": 51}': {"a": 28}, '{"a": 27}': {"a": 50}, '{"a": 28}': {"a": 51},
+                                            '{"i": 1}': {"a": 50}, '{"i": 0}': {"a": 51}}])
+                        plain = {k for k, fn in st[3] if fn[0] == "id"}          # fields whose serializer accepts any value
+                        idx = [i for i, f in enumerate(st[2]) if f[0] in plain]
+                        if idx and not any(json.dumps(f[1]) in swap for f in st[2]):
+                            v = rng.choice([{"i": 1}, {"i": 0}, {"a": 27}, {"a": 28}])
+                            st[2][idx[0]][1], dup[2][idx[0]][1] = dict(v), dict(v)
+                        for f in dup[2]:
+                            if f[0] in plain:
+                                f[1] = swap.get(json.dumps(f[1]), f[1])
+                    out.append(dup)
         return out
 
     def stmt(self, depth, enclosing, c):
